@@ -161,6 +161,16 @@ def structure_problems(o, input_h):
                 for j in range(i):
                     if dist((hs[i].x, hs[i].y, hs[i].z), (hs[j].x, hs[j].y, hs[j].z)) < 0.5:
                         probs.append("%s two hydrogens on %s %s closer than 0.5 A" % (cname, p.name, p.residue_label))
+        # a backbone nitrogen that is peptide-bonded to the carbonyl carbon of another residue of its chain is an amide: it is
+        # not a chain start and carries exactly one hydrogen (none for proline)
+        for a in conf.atoms:
+            if a.type == 'atom' and a.name == 'N' and a.element == 'N':
+                prev = [b for b in a.bonded_atoms if b.name == 'C' and b.chain_id == a.chain_id and (b.res_num, b.icode) != (a.res_num, a.icode)]
+                if len(prev) == 1 and len(a.get_bonded_heavy_atoms()) == (3 if a.res_name == 'PRO' else 2):
+                    nh = a.count_bonded_elements('H')
+                    if a.terminal == 'N+' or nh != (0 if a.res_name == 'PRO' else 1):
+                        probs.append("%s amide nitrogen of %s %s%s (bonded to C of %s%s): terminal=%r, %d hydrogens" % (
+                            cname, a.res_name, a.res_num, a.icode.strip(), prev[0].res_num, prev[0].icode.strip(), a.terminal, nh))
         # complement of complete residues
         for key, atoms in complete_residues(conf):
             rn = key[3]
@@ -246,6 +256,15 @@ def run(ctx):
     inputs = [(n, t) for n, t in pdbgen.test_files(["1HPX", "sample-issue-140", "3SGB-subset"] if ctx.quick() else ["1HPX", "3SGB", "4DFR", "1FTJ-Chain-A", "sample-issue-140"])]
     for i in range(6 if ctx.quick() else 60):
         lines, ids = pdbgen.multichain(rnd, nchains=rnd.randint(1, 2))
+        if i % 3 == 2:
+            # the second and third residue of a chain share the first residue's number (insertion codes A, B)
+            items = pdbgen.split_residues(lines)
+            res = [k for k, it in enumerate(items) if it[0] == "res" and it[2][0].startswith("ATOM")]
+            if len(res) >= 4 and len({items[k][2][0][21] for k in res[:3]}) == 1:
+                num = items[res[0]][2][0][22:26]
+                for k, ic in zip(res[1:3], "AB"):
+                    items[k] = ("res", None, [pdbgen.setcols(pdbgen.setcols(l, 22, 26, num), 26, 27, ic) for l in items[k][2]])
+                lines = pdbgen.flatten(items)
         inputs.append(("gen%d" % i, pdbgen.text(lines)))
     sbad, wbad, obad = [], [], []
     calls = []
